@@ -103,8 +103,9 @@ def integ_order(check, proj):
         except AnalysisError as e:
             check.undecided("INTEG-ORDER", c.qualname, "abstract interpretation failed: %s" % e, loc)
             continue
-        if T.problems:
-            check.violation("INTEG-ORDER", c.qualname, T.problems[0][1], loc, key="tableau")
+        probs = [t for r, t in T.problems if rk.problem_kind(r, t) == "update"]     # stage times and local steps do not enter an autonomous problem with one global step
+        if probs:
+            check.violation("INTEG-ORDER", c.qualname, probs[0], loc, key="tableau")
             continue
         order = rk.NOMINAL_ORDER[name]
         bad = [(cn, lhs) for cn, lhs, rhs in rk.order_conditions(T.A, T.b, order) if lhs != rhs]
